@@ -516,6 +516,8 @@ class Type2Tag(Tag):
             log.debug("received nak response")
             self.target.sel_req = self.target.sdd_res[:]
             self._target = self.clf.sense(self.target)
+            # a tag that was activated again has sector 0 selected
+            self._current_sector = 0
             raise Type2TagCommandError(
                 INVALID_PAGE_ERROR if self.target else nfc.tag.RECEIVE_ERROR)
 
